@@ -335,12 +335,10 @@ func init() {
 
 // whole float quantities: below 2^4 in the quick tier (two of the 7-unit of the odd set 91/7/1), below 2^7 in the
 // thorough tier (one of each unit, two minutes): every fp.div/floor obligation costs the solver seconds
-// unit sets for the float entries: the odd set 91/7/1 and the set without multipliers in the quick tier
+// unit sets for the float entries: the odd set 91/7/1 and the set without multipliers (both tiers; the sexagesimal
+// and binary sets at 2^12 needed 15 min and left solver answers unknown, so they are not registered)
 func verifFloatUnitChoice() int {
-	if verifTier() > 0 {
-		return [3]int{2, 3, 5}[nondetChoice("unitsFloat", 3)]
-	}
-	return [2]int{3, 5}[nondetChoice("unitsFloatQuick", 2)]
+	return [2]int{3, 5}[nondetChoice("unitsFloat", 2)]
 }
 
 func verifWholeFloatQuantity(name string) float64 {
